@@ -241,11 +241,11 @@ def _mk_asset(kind, name, nodes, rng):
     import eaopack as eao
     n0, n1 = nodes
     if kind == 'contract1':
-        return eao.assets.SimpleContract(name=name, nodes=n0, price='p', min_cap=-1., max_cap=rng.choice([1., 2.]))
+        return eao.assets.SimpleContract(name=name, nodes=n0, price='p', min_cap=-1., max_cap=rng.choice([1., 2.]), wacc=rng.choice([0., 0., 0.5, 5.]))
     if kind == 'contract2':
-        return eao.assets.SimpleContract(name=name, nodes=n0, price='q', min_cap=-1., max_cap=1., extra_costs=rng.choice([0.5, 1.]))
+        return eao.assets.SimpleContract(name=name, nodes=n0, price='q', min_cap=-1., max_cap=1., extra_costs=rng.choice([0.5, 1.]), wacc=rng.choice([0., 2., 9.]))
     if kind == 'transport':
-        return eao.assets.Transport(name=name, nodes=[n0, n1], min_cap=0., max_cap=1., efficiency=0.9, costs_const=0.1)
+        return eao.assets.Transport(name=name, nodes=[n0, n1], min_cap=0., max_cap=1., efficiency=0.9, costs_const=0.1, wacc=rng.choice([0., 3.]))
     if kind == 'storage':
         return eao.assets.Storage(name=name, nodes=n1, size=2., cap_in=1., cap_out=1., eff_in=rng.choice([1., 0.9]), price=None)
     if kind == 'orderbook_out':
@@ -314,7 +314,10 @@ def _pf_native_post(ctx, outcome):
     op = res
     ls = np.concatenate([np.asarray(o.l, dtype=float) for o in ops])
     us = np.concatenate([np.asarray(o.u, dtype=float) for o in ops])
-    yield ('C07.asm.vectors', len(op.c) == len(cs) and np.allclose(op.c, cs) and np.allclose(op.l, ls) and np.allclose(op.u, us))
+    okv = len(op.c) == len(cs) and np.allclose(op.c, cs, rtol=1e-9, atol=1e-12) and np.allclose(op.l, ls) and np.allclose(op.u, us)
+    yield ('C07.asm.vectors', okv)
+    yield ('C10.asm.each_block_equals_the_assets_standalone_problem', okv)
+    yield ('C09.order.each_block_equals_the_assets_standalone_problem', okv)
     offs = np.cumsum([0] + [len(o.l) for o in ops])
     exp_idx, exp_asset, exp_ts = [], [], []
     for a, o in enumerate(ops):
